@@ -1,7 +1,603 @@
-// correspondence + search binary for property C06 (stub)
+// C06 — HandIterator / ObservationIterator / IsomorphismIterator / Observation::children:
+// the real iterators (both deck builds) vs the Lean model (line stream) and vs the search
+// oracle: brute-force subset enumeration in increasing order, binomial counts, orbit counting
+// under the 24 suit relabelings and the Burnside polynomial — all written here from the
+// property statement, none of it uses the model or the iterators under test.
+use robopoker::cards::hand::Hand;
+use robopoker::cards::hands::HandIterator;
+use robopoker::cards::isomorphisms::IsomorphismIterator;
+use robopoker::cards::observation::Observation;
+use robopoker::cards::observations::ObservationIterator;
+use robopoker::cards::street::Street;
+use rpharness::*;
+use std::collections::HashSet;
+
+const CK_MOD: u64 = 1099511627689;
+const CK_MUL: u64 = 1000003;
+fn mix(h: u64, x: u64) -> u64 {
+    ((h as u128 * CK_MUL as u128 + x as u128) % CK_MOD as u128) as u64
+}
+
+fn deck_name() -> &'static str {
+    if is_shortdeck() { "short" } else { "std" }
+}
+fn full_deck() -> u64 {
+    Hand::mask()
+}
+fn binom(n: u64, k: u64) -> u128 {
+    if k > n {
+        return 0;
+    }
+    let mut r: u128 = 1;
+    for i in 0..k {
+        r = r * (n - i) as u128 / (i + 1) as u128;
+    }
+    r
+}
+fn cards_of(set: u64) -> Vec<u8> {
+    (0..64u8).filter(|c| set >> c & 1 == 1).collect()
+}
+
+/// all k-subsets of `free`, as bit masks, in increasing numeric order (brute force + sort)
+fn brute_subsets(free: u64, k: usize) -> Vec<u64> {
+    fn rec(cards: &[u8], k: usize, from: usize, acc: u64, out: &mut Vec<u64>) {
+        if k == 0 {
+            out.push(acc);
+            return;
+        }
+        for i in from..cards.len() {
+            rec(cards, k - 1, i + 1, acc | 1u64 << cards[i], out);
+        }
+    }
+    let cards = cards_of(free);
+    let mut out = vec![];
+    rec(&cards, k, 0, 0, &mut out);
+    out.sort();
+    out
+}
+
+fn street_of(i: usize) -> Street {
+    [Street::Pref, Street::Flop, Street::Turn, Street::Rive][i]
+}
+fn n_board(i: usize) -> usize {
+    [0, 3, 4, 5][i]
+}
+fn n_reveal(i: usize) -> usize {
+    [3, 1, 1, 0][i]
+}
+
+// ---- suit relabelings, written from the card layout card = 4*rank + suit
+const SUIT0: u64 = 0x1111111111111;
+fn perms4() -> Vec<[u32; 4]> {
+    let mut v = vec![];
+    for a in 0..4u32 {
+        for b in 0..4u32 {
+            for c in 0..4u32 {
+                for d in 0..4u32 {
+                    if a != b && a != c && a != d && b != c && b != d && c != d {
+                        v.push([a, b, c, d]);
+                    }
+                }
+            }
+        }
+    }
+    v
+}
+fn relabel(h: u64, p: &[u32; 4]) -> u64 {
+    let mut o = 0u64;
+    for s in 0..4 {
+        o |= ((h >> s) & SUIT0) << p[s];
+    }
+    o
+}
+fn orbit_min(pocket: u64, public: u64, perms: &[[u32; 4]]) -> (u64, u64) {
+    perms.iter().map(|p| (relabel(pocket, p), relabel(public, p))).min().unwrap()
+}
+
+/// number of suit-orbits of (pocket, k-card board) pairs of the configured deck, by enumerating
+/// every pair with own loops and counting the orbit-minimal ones; sharded over threads by pocket
+fn brute_orbit_count(k: usize) -> u64 {
+    let deck = cards_of(full_deck());
+    let perms = perms4();
+    let mut pockets = vec![];
+    for i in 0..deck.len() {
+        for j in i + 1..deck.len() {
+            pockets.push(1u64 << deck[i] | 1u64 << deck[j]);
+        }
+    }
+    let nthreads = std::thread::available_parallelism().map(|n| n.get()).unwrap_or(4).min(16);
+    let chunks: Vec<Vec<u64>> = (0..nthreads).map(|t| pockets.iter().cloned().skip(t).step_by(nthreads).collect()).collect();
+    let mut total = 0u64;
+    std::thread::scope(|sc| {
+        let hs: Vec<_> = chunks
+            .iter()
+            .map(|ch| {
+                let perms = &perms;
+                let deck = &deck;
+                sc.spawn(move || {
+                    fn rec(cards: &[u8], k: usize, from: usize, acc: u64, pocket: u64, perms: &[[u32; 4]], n: &mut u64) {
+                        if k == 0 {
+                            let me = (pocket, acc);
+                            if perms.iter().all(|p| (relabel(pocket, p), relabel(acc, p)) >= me) {
+                                *n += 1;
+                            }
+                            return;
+                        }
+                        for i in from..cards.len() {
+                            rec(cards, k - 1, i + 1, acc | 1u64 << cards[i], pocket, perms, n);
+                        }
+                    }
+                    let mut n = 0u64;
+                    for &p in ch {
+                        let rest: Vec<u8> = deck.iter().cloned().filter(|c| p >> c & 1 == 0).collect();
+                        rec(&rest, k, 0, 0, p, perms, &mut n);
+                    }
+                    n
+                })
+            })
+            .collect();
+        for h in hs {
+            total += h.join().unwrap();
+        }
+    });
+    total
+}
+
+/// Burnside: (1/24) sum over the 24 suit permutations of the number of fixed (2-card pocket,
+/// k-card board) pairs = [x^2 y^k] prod over cycles (1 + x^l + y^l)^ranks
+fn burnside(ranks: usize, k: usize) -> u128 {
+    type Poly = [[u128; 6]; 3];
+    fn mul(a: &Poly, b: &Poly) -> Poly {
+        let mut o = [[0u128; 6]; 3];
+        for i in 0..3 {
+            for j in 0..6 {
+                if a[i][j] == 0 {
+                    continue;
+                }
+                for u in 0..3 - i {
+                    for v in 0..6 - j {
+                        o[i + u][j + v] += a[i][j] * b[u][v];
+                    }
+                }
+            }
+        }
+        o
+    }
+    let mut sum = 0u128;
+    for p in perms4() {
+        let mut seen = [false; 4];
+        let mut poly: Poly = [[0; 6]; 3];
+        poly[0][0] = 1;
+        for s in 0..4 {
+            if seen[s] {
+                continue;
+            }
+            let mut l = 0;
+            let mut t = s;
+            while !seen[t] {
+                seen[t] = true;
+                t = p[t] as usize;
+                l += 1;
+            }
+            let mut f: Poly = [[0; 6]; 3];
+            f[0][0] = 1;
+            if l < 3 {
+                f[l][0] += 1;
+            }
+            if l < 6 {
+                f[0][l] += 1;
+            }
+            for _ in 0..ranks {
+                poly = mul(&poly, &f);
+            }
+        }
+        sum += poly[2][k];
+    }
+    assert!(sum % 24 == 0);
+    sum / 24
+}
+
+struct HandsOut {
+    count: u64,
+    ck: u64,
+    list: Vec<u64>,
+    sorted: bool,
+    bad_size: Option<u64>,
+    bad_mask: Option<u64>,
+    bad_range: Option<u64>,
+}
+
+fn run_hands(k: usize, mask: u64, keep: bool) -> Option<HandsOut> {
+    catch(move || {
+        let mut o = HandsOut { count: 0, ck: 0, list: vec![], sorted: true, bad_size: None, bad_mask: None, bad_range: None };
+        let blocked = (mask & full_deck()) | !full_deck();
+        let mut last: Option<u64> = None;
+        for h in HandIterator::from((k, Hand::from(mask))) {
+            let x = u64::from(h);
+            o.count += 1;
+            o.ck = mix(o.ck, x);
+            if keep {
+                o.list.push(x);
+            }
+            if let Some(l) = last {
+                if l >= x {
+                    o.sorted = false;
+                }
+            }
+            last = Some(x);
+            if x.count_ones() as usize != k {
+                o.bad_size.get_or_insert(x);
+            }
+            if x & blocked != 0 {
+                o.bad_mask.get_or_insert(x);
+            }
+            if x >> 52 != 0 {
+                o.bad_range.get_or_insert(x);
+            }
+        }
+        o
+    })
+}
+
+/// one (k, mask) case: correspondence line + oracle
+fn hands_case(run: &mut Run, k: usize, mask: u64, full_list: bool) {
+    let deck = deck_name();
+    let free = full_deck() & !mask;
+    let n = free.count_ones() as u64;
+    let op = format!("hands {deck} {k} {mask} {}", if full_list { "list" } else { "sum" });
+    run.evaluations += 1;
+    run.count(&format!("hands k={k} free={:02}", n));
+    let out = run_hands(k, mask, full_list || binom(n, k as u64) <= 400_000);
+    let Some(o) = out else {
+        run.line(&op, "panic");
+        run.fail("hands-panics", &op, "an iteration", "panic");
+        return;
+    };
+    if full_list {
+        run.line(&op, &format!("n={} [{}]", o.count, o.list.iter().map(|x| x.to_string()).collect::<Vec<_>>().join(" ")));
+    } else {
+        run.line(&op, &format!("n={} ck={}", o.count, o.ck));
+    }
+    if k >= 1 && n >= k as u64 {
+        run.distinct(&(k, mask & full_deck()));
+    }
+    // ---- search oracle
+    run.spec_checked += 1;
+    let want = binom(n, k as u64);
+    if k == 0 {
+        // C(n, 0) = 1: the one empty hand
+        if !(o.count == 1 && o.ck == 0) {
+            run.fail("hands-k0-yields-nothing", &op, "one hand: the empty hand (C(n,0) = 1)", &format!("{} hands", o.count));
+        }
+        return;
+    }
+    if o.count as u128 != want {
+        run.fail("hands-count-not-binomial", &op, &format!("C({n},{k}) = {want} hands"), &format!("{} hands", o.count));
+    }
+    if !o.sorted {
+        run.fail("hands-not-increasing", &op, "strictly increasing hands", "a hand not above its predecessor");
+    }
+    if let Some(x) = o.bad_size {
+        run.fail("hands-wrong-size", &op, &format!("{k} cards in every hand"), &format!("hand {x}"));
+    }
+    if let Some(x) = o.bad_mask {
+        run.fail("hands-blocked-card", &op, "no blocked card (and no card outside the deck)", &format!("hand {x}"));
+    }
+    if let Some(x) = o.bad_range {
+        run.fail("hands-beyond-52-bits", &op, "cards 0..51 only", &format!("hand {x}"));
+    }
+    if !o.list.is_empty() || want == 0 {
+        if want <= 400_000 {
+            let brute = brute_subsets(free, k);
+            if brute != o.list {
+                let i = brute.iter().zip(o.list.iter()).position(|(a, b)| a != b).unwrap_or(brute.len().min(o.list.len()));
+                run.fail("hands-list-differs-from-brute-force", &op,
+                    &format!("{} subsets, item {i} = {:?}", brute.len(), brute.get(i)),
+                    &format!("{} hands, item {i} = {:?}", o.list.len(), o.list.get(i)));
+            }
+        }
+    }
+}
+
+struct ObsOut {
+    count: u64,
+    ck: u64,
+    sorted: bool,
+    bad: Option<(u64, u64)>,
+}
+fn run_obs(street: usize) -> Option<ObsOut> {
+    catch(move || {
+        let mut o = ObsOut { count: 0, ck: 0, sorted: true, bad: None };
+        let mut last: Option<(u64, u64)> = None;
+        let nb = n_board(street) as u32;
+        for ob in ObservationIterator::from(street_of(street)) {
+            let p = u64::from(*ob.pocket());
+            let b = u64::from(*ob.public());
+            o.count += 1;
+            o.ck = mix(mix(o.ck, p), b);
+            if let Some(l) = last {
+                if l >= (p, b) {
+                    o.sorted = false;
+                }
+            }
+            last = Some((p, b));
+            if p.count_ones() != 2 || b.count_ones() != nb || p & b != 0 || (p | b) & !full_deck() != 0 {
+                o.bad.get_or_insert((p, b));
+            }
+        }
+        o
+    })
+}
+
+fn obs_case(run: &mut Run, street: usize) {
+    let deck = deck_name();
+    let op = format!("obs {deck} {street}");
+    run.evaluations += 1;
+    run.count(&format!("obs street={street}"));
+    let Some(o) = run_obs(street) else {
+        run.line(&op, "panic");
+        run.fail("observations-panic", &op, "an iteration", "panic");
+        return;
+    };
+    run.line(&op, &format!("n={} ck={}", o.count, o.ck));
+    run.distinct(&("obs", street));
+    run.spec_checked += 1;
+    let n = full_deck().count_ones() as u64;
+    let want = binom(n, 2) * binom(n - 2, n_board(street) as u64);
+    if o.count as u128 != want {
+        run.fail("observations-count", &op, &format!("C({n},2)*C({},{}) = {want}", n - 2, n_board(street)), &format!("{}", o.count));
+    }
+    if street_of(street).n_observations() as u128 != want {
+        run.fail("n_observations-constant", &op, &format!("{want}"), &format!("{}", street_of(street).n_observations()));
+    }
+    if !o.sorted {
+        run.fail("observations-not-increasing", &op, "strictly increasing (pocket, board) pairs, hence no duplicate", "a pair not above its predecessor");
+    }
+    if let Some((p, b)) = o.bad {
+        run.fail("observations-illegal", &op, "2 pocket cards, the street's board cards, disjoint, inside the deck", &format!("pocket {p} board {b}"));
+    }
+}
+
+fn iso_case(run: &mut Run, street: usize, brute_orbits: bool) {
+    let deck = deck_name();
+    let op = format!("niso {deck} {street}");
+    run.evaluations += 1;
+    run.count(&format!("iso street={street}"));
+    let perms = perms4();
+    let res = catch(move || {
+        let mut count = 0u64;
+        let mut keys: HashSet<(u64, u64)> = HashSet::new();
+        let mut not_member = None;
+        let keep = street <= 1;
+        for iso in IsomorphismIterator::from(street_of(street)) {
+            let ob = Observation::from(iso);
+            let (p, b) = (u64::from(*ob.pocket()), u64::from(*ob.public()));
+            count += 1;
+            if keep {
+                keys.insert(orbit_min(p, b, &perms));
+            }
+            if p.count_ones() != 2 || b.count_ones() as usize != n_board(street) || p & b != 0 || (p | b) & !full_deck() != 0 {
+                not_member.get_or_insert((p, b));
+            }
+        }
+        (count, keys.len() as u64, keep, not_member)
+    });
+    let Some((count, classes, keep, bad)) = res else {
+        run.line(&op, "panic");
+        run.fail("isomorphisms-panic", &op, "an iteration", "panic");
+        return;
+    };
+    run.line(&op, &count.to_string());
+    run.distinct(&("iso", street));
+    run.spec_checked += 1;
+    let ranks = (full_deck().count_ones() / 4) as usize;
+    let bs = burnside(ranks, n_board(street));
+    if count as u128 != bs {
+        run.fail("isomorphisms-count-vs-burnside", &op, &format!("{bs} classes (Burnside)"), &format!("{count} yielded"));
+    }
+    if street_of(street).n_isomorphisms() as u128 != bs {
+        run.fail("n_isomorphisms-constant-vs-burnside", &op, &format!("{bs}"), &format!("{}", street_of(street).n_isomorphisms()));
+    }
+    if let Some((p, b)) = bad {
+        run.fail("isomorphisms-illegal", &op, "a legal observation of the street", &format!("pocket {p} board {b}"));
+    }
+    if keep && classes != count {
+        run.fail("isomorphisms-two-representatives-in-one-class", &op, &format!("{count} distinct classes among {count} representatives"), &format!("{classes} distinct classes"));
+    }
+    if brute_orbits {
+        run.spec_checked += 1;
+        let orbits = brute_orbit_count(n_board(street));
+        if orbits != count {
+            run.fail("isomorphisms-count-vs-orbit-enumeration", &op, &format!("{orbits} orbits by enumeration"), &format!("{count} yielded"));
+        }
+    }
+}
+
+fn children_case(run: &mut Run, pocket: u64, public: u64) {
+    let deck = deck_name();
+    let op = format!("children {deck} {pocket} {public}");
+    run.evaluations += 1;
+    let nb = public.count_ones() as usize;
+    run.count(&format!("children board={nb}"));
+    let res = catch(move || {
+        let ob = Observation::from((Hand::from(pocket), Hand::from(public)));
+        let mut v = vec![];
+        for c in ob.children() {
+            v.push((u64::from(*c.pocket()), u64::from(*c.public())));
+        }
+        v
+    });
+    let street = [0usize, 9, 9, 1, 2, 3][nb.min(5)];
+    let Some(v) = res else {
+        run.line(&op, "panic");
+        if street != 3 {
+            run.fail("children-panic", &op, "the successors", "panic");
+        }
+        return;
+    };
+    let mut ck = 0;
+    for &(p, b) in &v {
+        ck = mix(mix(ck, p), b);
+    }
+    run.line(&op, &format!("n={} ck={ck}", v.len()));
+    run.distinct(&(pocket, public));
+    run.spec_checked += 1;
+    if street == 3 {
+        run.fail("children-of-river", &op, "panic (terminal street)", &format!("{} children", v.len()));
+        return;
+    }
+    let free = full_deck() & !(pocket | public);
+    let want: Vec<(u64, u64)> = brute_subsets(free, n_reveal(street)).into_iter().map(|r| (pocket, public | r)).collect();
+    if want != v {
+        run.fail("children-differ-from-brute-force", &op, &format!("{} successors in increasing order of the revealed cards", want.len()), &format!("{} successors", v.len()));
+    }
+    if street_of(street).n_children() != want.len() {
+        run.fail("n_children-constant", &op, &format!("{}", want.len()), &format!("{}", street_of(street).n_children()));
+    }
+}
+
 fn main() {
-    let a = rpharness::args();
-    let mut run = rpharness::Run::new(&a.out);
-    run.rule = "stub".into();
+    let a = args();
+    let mut rng = Rng::new(a.seed);
+    let mut run = Run::new(&a.out);
+    quiet_panics();
+    let deck = deck_name();
+    let full = full_deck();
+    let all52: u64 = (1u64 << 52) - 1;
+    let thorough = a.thorough();
+
+    // ---- published tables (ties the extractor's tables to the values the code returns)
+    for st in 0..4 {
+        run.line(&format!("nobs {deck} {st}"), &street_of(st).n_observations().to_string());
+        let ch = catch(move || street_of(st).n_children());
+        run.line(&format!("nchildren {deck} {st}"), &ch.map(|c| c.to_string()).unwrap_or("panic".into()));
+    }
+
+    // ---- 1. dense masks: 0..=12 free cards, k = 0..=7, full lists
+    let per = if thorough { 60 } else { 12 };
+    let mut masks: Vec<u64> = vec![];
+    for f in 0..=12usize {
+        for _ in 0..per {
+            // free cards among the 52 positions (in the short deck some of them are blocked anyway)
+            let pool = if rng.chance(1, 2) { full } else { all52 };
+            let free = rng.cards(f, pool);
+            let mut m = all52 & !free;
+            if rng.chance(1, 8) {
+                m |= rng.next() << 52; // junk above bit 51 must be ignored by Hand::from
+            }
+            masks.push(m);
+        }
+        // structured: free cards packed against the 52-bit boundary, and at the bottom of the deck
+        let top = if f == 0 { 0 } else { ((1u64 << f) - 1) << (52 - f) };
+        masks.push(all52 & !top);
+        let low = full.trailing_zeros();
+        let bot = if f == 0 { 0 } else { ((1u64 << f) - 1) << low };
+        masks.push(all52 & !bot);
+        // alternating
+        let alt = (0..f).fold(0u64, |acc, i| acc | 1u64 << (51 - 2 * i as u64).min(51));
+        masks.push(all52 & !alt);
+    }
+    // The iterator walks through every k-bit pattern below 2^52 whatever the mask is, so one case
+    // costs about C(52,k) steps on both sides: every mask gets k = 0..=4, and k = 5, 6, 7 are
+    // given to a spread of masks sized by the tier.
+    let (n5, n6, n7) = if thorough { (masks.len(), 80, 24) } else { (20, 4, 1) };
+    let pick = |n: usize, total: usize| -> Vec<usize> { (0..n.min(total)).map(|i| total - 1 - i * total / n.min(total).max(1)).collect() };
+    let (p5, p6, p7) = (pick(n5, masks.len()), pick(n6, masks.len()), pick(n7, masks.len()));
+    for (i, &m) in masks.iter().enumerate() {
+        for k in 0..=7usize {
+            let take = match k { 5 => p5.contains(&i), 6 => p6.contains(&i), 7 => p7.contains(&i), _ => true };
+            if take {
+                hands_case(&mut run, k, m, true);
+            }
+        }
+    }
+    // ---- 2. sparser masks: counts + order checksums (+ brute force while it is small)
+    let ncases = if thorough { 400 } else { 120 };
+    let (mut left6, mut left7) = if thorough { (40, 12) } else { (2, 0) };
+    for i in 0..ncases {
+        let f = 13 + rng.below(40) as usize; // 13..=52 free cards
+        let mut k = rng.below(8) as usize;
+        if k == 6 { if left6 == 0 { k = 4 } else { left6 -= 1 } }
+        if k == 7 { if left7 == 0 { k = 5 } else { left7 -= 1 } }
+        let free = rng.cards(f, if i % 3 == 0 { all52 } else { full });
+        hands_case(&mut run, k, all52 & !free, false);
+    }
+    // no mask at all
+    for k in 0..=(if thorough { 7usize } else { 6 }) {
+        hands_case(&mut run, k, 0, false);
+    }
+    // hand sizes beyond the property's 0..=7 whose walk is short: the initial pattern 2^k - 1 sits
+    // against the 52-bit boundary
+    for k in [47usize, 48, 49, 50, 51, 52, 53, 63] {
+        hands_case(&mut run, k, 0, false);
+        let extra = rng.below(3) as usize;
+        let free = rng.cards(k + extra, full);
+        hands_case(&mut run, k, all52 & !free, false);
+    }
+
+    // ---- 3. observations and isomorphism classes
+    let streets: &[usize] = if thorough { &[0, 1, 2, 3] } else { &[0, 1] };
+    // the long thorough iterations run on their own threads while the rest proceeds
+    let mut heavy = vec![];
+    if thorough {
+        for st in [2usize, 3] {
+            heavy.push((st, std::thread::spawn(move || {
+                catch(move || IsomorphismIterator::from(street_of(st)).count() as u64)
+            })));
+        }
+    }
+    for &st in streets {
+        obs_case(&mut run, st);
+    }
+    for st in [0usize, 1] {
+        iso_case(&mut run, st, true);
+    }
+    for (st, h) in heavy {
+        let op = format!("niso {deck} {st}");
+        run.evaluations += 1;
+        run.count(&format!("iso street={st}"));
+        match h.join().ok().flatten() {
+            None => {
+                run.line(&op, "panic");
+                run.fail("isomorphisms-panic", &op, "an iteration", "panic");
+            }
+            Some(count) => {
+                run.line(&op, &count.to_string());
+                run.spec_checked += 1;
+                let bs = burnside((full.count_ones() / 4) as usize, n_board(st));
+                if count as u128 != bs {
+                    run.fail("isomorphisms-count-vs-burnside", &op, &format!("{bs} classes (Burnside)"), &format!("{count} yielded"));
+                }
+                if street_of(st).n_isomorphisms() as u128 != bs {
+                    run.fail("n_isomorphisms-constant-vs-burnside", &op, &format!("{bs}"), &format!("{}", street_of(st).n_isomorphisms()));
+                }
+            }
+        }
+    }
+    if !thorough {
+        // the constants of the two streets not iterated in this tier are still compared with Burnside
+        for st in [2usize, 3] {
+            run.spec_checked += 1;
+            let bs = burnside((full.count_ones() / 4) as usize, n_board(st));
+            if street_of(st).n_isomorphisms() as u128 != bs {
+                run.fail("n_isomorphisms-constant-vs-burnside", &format!("street {st}"), &format!("{bs}"), &format!("{}", street_of(st).n_isomorphisms()));
+            }
+        }
+    }
+
+    // ---- 4. children of sampled observations (river: the code panics, by design)
+    let nchild = if thorough { 2000 } else { 250 };
+    for st in 0..4usize {
+        for _ in 0..(if st == 3 { 20 } else { nchild }) {
+            let pocket = rng.cards(2, full);
+            let public = rng.cards(n_board(st), full & !pocket);
+            children_case(&mut run, pocket, public);
+        }
+    }
+
+    run.exhaustive = false;
+    run.rule = format!(
+        "deck={deck}. hands: {} masks leaving 0..12 free cards (random, packed against bit 51, packed at the bottom, alternating, some with junk above bit 51) x k=0..4 as full lists, k=5/6/7 for {n5}/{n6}/{n7} of them (a case costs ~C(52,k) steps whatever the mask); {ncases} random masks leaving 13..52 free cards x random k<=7 and the unmasked deck as count+order checksum; k in {{47..53,63}} (short walks against the 52-bit boundary) as counts. observations: streets {:?} complete (count, order checksum, every item legal and above its predecessor). isomorphism classes: pre-flop and flop by the real IsomorphismIterator (+ turn and river in the thorough tier) against the Burnside polynomial, the published constants, an own orbit enumeration, and pairwise-distinct orbit keys. children: {nchild} random observations per street. distinct = (k, mask) with k >= 1 and at least k free cards, streets, observations.",
+        masks.len(), streets);
     run.finish();
 }
